@@ -40,6 +40,14 @@ def direct_sum(J, areas, sites, pts):
     return np.einsum("jk,j,ij->ik", J, areas, 1.0 / r)
 
 
+def indep_areas(solver):
+    """physical cell areas (a xi^2, the solver's sites and edge centres are physical positions too) times the prefactor of the
+    induced potential, (mu_0/4 pi)(K0/A0) = 1 / (pi Lambda) with Lambda = lambda^2 / d - computed here from the layer's numbers (all in
+    the device's length unit), not taken from the solver"""
+    lay = solver.device.layer
+    return np.asarray(solver.device.mesh.areas) * lay.coherence_length ** 2 * lay.thickness / (np.pi * lay.london_lambda ** 2)
+
+
 def kernel_cases(rep, rng, tier):
     from tdgl.solver.screening import get_A_induced_numba
     texts, refs = [], []
@@ -133,7 +141,8 @@ def polyak_cases(rep, rng, dev, tier):
 
 def screening_runs(rep, rng, dev, tier):
     from tdgl.solver.solver import TDGLSolver
-    plans = [(1e-2, 0.1, 0.5), (1e-3, 0.5, 1.0), (1e-4, 0.5, 1.0), (1e-2, 0.02, 0.5), (3e-3, 1.0, 1.0), (1e-3, 0.5, 1.0, 1e-10)] if tier == "quick" else \
+    plans = [(1e-3, 0.5, 1.0)] if tier == "nm" else \
+        [(1e-2, 0.1, 0.5), (1e-3, 0.5, 1.0), (1e-4, 0.5, 1.0), (1e-2, 0.02, 0.5), (3e-3, 1.0, 1.0), (1e-3, 0.5, 1.0, 1e-10)] if tier == "quick" else \
         [(1e-2, 0.1, 0.5), (1e-3, 0.5, 1.0), (1e-4, 0.5, 1.0), (3e-3, 1.0, 1.0), (1e-3, 0.1, 0.25), (1e-2, 1.0, 0.5)]
     # feature pair: screening together with a seed solution that carries currents, the drive (field and bias) switched OFF: the
     # only sources of the induced potential are then the currents inherited from the seed
@@ -165,7 +174,7 @@ def screening_runs(rep, rng, dev, tier):
             # stored potential vs direct double sum of the stored currents
             J = np.asarray(res.supercurrent) + np.asarray(res.normal_current)
             Js = solver.device.mesh.get_quantity_on_site(J)
-            K = direct_sum(Js, solver.areas, solver.sites, solver.edge_centers)
+            K = direct_sum(Js, indep_areas(solver), solver.sites, solver.edge_centers)
             A = np.asarray(res.A_induced)
             num = np.linalg.norm(K - A, axis=1)
             den = np.maximum(np.linalg.norm(A, axis=1), 1e-20)
@@ -188,7 +197,7 @@ def screening_runs(rep, rng, dev, tier):
                 # the error the loop decides on must be the relative mismatch between the iterate and the direct sum,
                 # recomputed here independently of the implementation's kernel and bookkeeping
                 Js_ = solver.device.mesh.get_quantity_on_site(np.asarray(current_density))
-                K_ = direct_sum(Js_, solver.areas, solver.sites, solver.edge_centers)
+                K_ = direct_sum(Js_, indep_areas(solver), solver.sites, solver.edge_centers)
                 ind = float(np.max(np.linalg.norm(K_ - A_prev, axis=1) / np.maximum(np.linalg.norm(np.asarray(A), axis=1), 1e-20)))
                 if len(A_vals) > 1 and abs(ind - float(err)) > 1e-6 * max(ind, float(err)) and len(ind_bad) < 3:
                     ind_bad.append({"tol": tol, "alpha": alpha, "beta": beta, "reported": float(err), "recomputed": ind,
@@ -315,6 +324,10 @@ def run(rep: common.Report, tier: str, seed: int, replay=None) -> int:
             rep.not_shown("correspondence: get_induced_vector_potential differs from Model.Screen.polyak_step",
                           {**case, "err_model": me, "err_impl": err})
     screening_runs(rep, rng, dev, tier)
+    # the same kind of device stated in nanometres (every length 1000 times larger in number): the prefactor of the sum
+    # must follow the length unit
+    dev_nm = meshes.make_device(rng, holes=0, terminals=2, max_edge_length=1.1, length_units="nm", scale=1000.0)
+    screening_runs(rep, rng, dev_nm, "nm")
     rep.coverage.update({"kernel_cases": len(kt), "polyak_cases": len(pt), "correspondence_disagreements": ndis})
     rep.assumptions += ["numba fastmath/parallel kernel compared with tolerance 1e-9 (reassociation allowed)",
                         "site averaging get_quantity_on_site computed by the implementation and passed to the model as data",
